@@ -1,0 +1,56 @@
+//go:build verif
+
+// Contracts for package terminal, read by /verif/govc. Comment-only; never compiled into the library.
+package terminal
+
+//@ valid *Terminal t: t != nil && t.header != nil && t.header.Property != nil
+
+// The simulator's header: as Header.decode leaves it (WithHeader decodes a template frame), with the protocol version
+// overwritten by the caller's: 2019 headers carry the version flag and a 10-byte phone, 2011/2013 headers a 6-byte phone.
+//@ spec tdom(h *jt808.Header, n int) bool = jt808.encdom(h, n) && iff(h.ProtocolVersion == 3, h.Property.Version == 1) && len(h.bcdTerminalPhoneNo) == ite(h.ProtocolVersion == 3, 10, 6)
+
+// ---------------------------------------------------------------------------------------------
+// C20, the part within reach of contracts: every frame CreateCommandData generates (any command, any custom body of at
+// most 1023 bytes, any header in the domain) is accepted by the real decoder with that command ID, the simulator's
+// phone bytes, the header layout of its version, a serial one greater than the previous one (wrapping) and the same
+// body. CreateCommandData is inlined; Header.Encode and JTMessage.Decode are used by contract; p, e, u are the payload
+// inside Encode, the frame, and the unescaped text inside Decode (ghosts). The stepping stones are those of
+// jt808.rtMessage.
+// ---------------------------------------------------------------------------------------------
+//@ func rtCommand
+//@   requires C20.dom: tdom(t.header, len(body))
+//@   ghost p: Encode ghost.payload
+//@   ghost e: Decode arg1
+//@   ghost u: Decode ghost.u
+//@   postuse jt808.xcong(u, p)
+//@   focus pos: esc scMono scBound paylen dom
+//@   focus cnt: esc link prev scBound paylen dom
+//@   focus tok: esc pos scBound paylen dom
+//@   focus same: pos cnt tok content len syntax scBound
+//@   focus uhead: same len paylen payhead dom
+//@   focus hbase: uhead dom
+//@   focus blen: uhead dom
+//@   focus ok: iff xor len paylen hbase blen dom syntax
+//@   focus id: uhead id ok
+//@   focus useq: same len paylen payhead dom ok id hbase
+//@   focus seq: useq serial ok hbase
+//@   focus phone: same len paylen payhead payphone dom bcd ok id hbase
+//@   focus body: same len paylen payhead paybody dom body ok id hbase
+//@   ensures C20.serial: t.header.PlatformSerialNumber == old(t.header.PlatformSerialNumber) + 1
+//@   ensures C20.m.syntax: jt808.w1(e) && jt808.w2(e)
+//@   ensures C20.m.len: len(u) == len(p)
+//@   ensures C20.m.pos: forall(i, 0, len(p), 1+i+jt808.sc(p,i) <= len(e)-2 && (jt808.special(p[i]) ==> 2+i+jt808.sc(p,i) <= len(e)-2))
+//@   ensures C20.m.cnt: forall(i, 0, len(p), !jt808.esec(e, 1+i+jt808.sc(p,i)) && jt808.ec(e, 1+i+jt808.sc(p,i)) == jt808.sc(p,i))
+//@   ensures C20.m.tok: forall(i, 0, len(p), jt808.etok(e, 1+i+jt808.sc(p,i)) == p[i])
+//@   ensures C20.m.same: forall(i, 0, len(p), mention(e[1+i+jt808.sc(p,i)]) ==> u[i] == p[i])
+//@   ensures C20.m.xor: utils.xorfold(u, len(u)) == 0
+//@   ensures C20.m.uhead: be16(u, 0) == ite(cmd == 0, old(t.header.ID), uint16(cmd)) && be16(u, 2) == old(jt808.encattr(t.header, len(body)))
+//@   ensures C20.m.hbase: jt808.is2019(u) == (old(jt808.v19(t.header)) == 1) && !jt808.isfrag(u) && jt808.hbase(u) == 6 + old(jt808.v19(t.header)) + old(len(t.header.bcdTerminalPhoneNo))
+//@   ensures C20.m.blen: jt808.blen(u) == len(body)
+//@   ensures C20.ok: result1 == nil
+//@   ensures C20.id: cmd != 0 ==> result0.Header.ID == uint16(cmd)
+//@   ensures C20.version: result0.Header.ProtocolVersion == ite(old(t.header.ProtocolVersion) == 3, byte(3), byte(2))
+//@   ensures C20.m.useq: be16(u, jt808.hbase(u) - 2) == old(t.header.PlatformSerialNumber) + 1
+//@   ensures C20.seq: result0.Header.SerialNumber == old(t.header.PlatformSerialNumber) + 1
+//@   ensures C20.phone: len(result0.Header.bcdTerminalPhoneNo) == old(len(t.header.bcdTerminalPhoneNo)) && sameBytes(result0.Header.bcdTerminalPhoneNo, old(t.header.bcdTerminalPhoneNo))
+//@   ensures C20.body: len(result0.Body) == len(body) && sameBytes(result0.Body, body)
